@@ -113,6 +113,7 @@ def monitor(script):
     relearn = False
     accepted_at_save = {0}
     accepted_ever = {0}
+    errored = {}                  # id -> internal-error verdict of its submission (C01, third sentence)
     blocks = {}            # header id -> number of transactions of the block it commits to
     deep_marks = set()     # marks of headers at/below the in-memory window: known to be ineffective
     min_depth = 10000
@@ -132,7 +133,7 @@ def monitor(script):
             base_height[p] = h
         return base_height[i]
 
-    base_work = {}
+    base_work = {0: block_work(0x1d00ffff)}   # genesis (test and main net): bits 0x1d00ffff
 
     def cumwork(i):
         path = []
@@ -224,6 +225,15 @@ def monitor(script):
             w = cumwork(i)
             if w is not None and w > d.work and not under_invalid(i):
                 m.hit("C01:not-heaviest", f"accepted header {i} has cumulative work {w} > reported tip work {d.work} (tip {d.tip})")
+                break
+        # third sentence: a submission that returned an error, whose header is nevertheless held
+        for i in sorted(errored):
+            if d.hh.get(i, -1) == -1 or i in accepted:
+                continue
+            w = cumwork(i)
+            if w is not None and w > d.work and not under_invalid(i):
+                m.hit("C01:error-left-heavier-unreported",
+                      f"the submission of header {i} returned `{errored[i]}` but the header is held (HashHeight {d.hh[i]}) and its chain has cumulative work {w} > reported tip work {d.work} (tip {d.tip})")
                 break
         # ---- C17: marked headers and what is built on them are off the best chain
         if invalid:
@@ -357,9 +367,11 @@ def monitor(script):
                 m.hit("C07:tip-mismatch", f"after `{op}` (v={v}) the stream's chain ends at {chain[-1]} (height {len(chain)-1}) but the reported tip is {tip['tip']} (height {tip['h']})")
                 chain_valid = False
             # C01 third sentence: an error never leaves a strictly heavier accepted chain unreported
-            if v not in ("ok",) and i in defs:
-                # the header may have been added before the error (that is the defect): detect at next dump via hh
-                pass
+            # (the header may have been added before the error: checked at the next dump via HashHeight)
+            if v is not None and v.startswith("err:") and i in defs:
+                errored[i] = v
+            elif v == "ok":
+                errored.pop(i, None)
             # C08 reference verdict
             if i in defs and v is not None:
                 p = defs[i][0]
